@@ -100,6 +100,11 @@ type PathResult struct {
 }
 
 // Path is the state of the path being executed.
+type pendingGoroutine struct {
+	fn   value
+	args []value
+}
+
 type Path struct {
 	w         *Worker
 	ts        *TermStore
@@ -110,6 +115,7 @@ type Path struct {
 	inputs    []Input
 	occ       map[string]int
 	pools     map[*value][]poolItem // sync.Pool contents
+	pendingGo []pendingGoroutine   // goroutines started by the code under test, not scheduled
 	obs       []Obs
 	sites     map[string]int
 	cands     []Candidate
